@@ -41,7 +41,8 @@ something specific to manifest, each with a demonstration program. Round 1 (-1, 
 (-3, -4: also told to prefer cooperating sites and less obvious places) covered all 19 properties; round 3 (-5, -6: ten
 properties, told to make the change HARD TO FIND BY RANDOM TESTING - a conjunction of two or three specific conditions -
 and to avoid the ideas of the earlier rounds) was aimed at the properties whose checks had needed strengthening; round 4
-(-5, -6 of the remaining nine properties) used the same "hard to find" brief. Every change was confirmed here before it was kept
+(-5, -6 of the remaining nine properties) used the same "hard to find" brief; round 5 (-7, -8: all 19 properties, one or
+two changes each) asked for changes made of TWO COOPERATING EDITS, each harmless alone. Every change was confirmed here before it was kept
 (`tools/seedcheck.sh`: suite with the change: 413 passed; demo without the change: exit 0; demo with the change: exit 1)
 and then the quick tier of the property's check was run against the changed tree. {n} changes were kept. {n - missed_first}
 were caught by the first version of the checks; {missed_first} were missed at first and led to the strengthenings described in
